@@ -118,6 +118,9 @@ class Sym:
     def __hash__(self):
         return hash(("Sym", self.n))
 
+    def __format__(self, spec):  # T6: logging / __str__ helpers format numbers
+        return repr(self)
+
     # -- arithmetic -------------------------------------------------------------------------------
     def __add__(self, o):
         o = lift(o)
